@@ -1691,6 +1691,177 @@ def multi_py(wit, S, which):
     return MULTI_PY.format(wit=wit, S=list(S), which=which)
 
 
+def delta_arith_case(ctx):
+    """Arithmetic on point masses: Delta (+|-) f and f (+|-) Delta with f mentioning the Delta's variable or not.
+    Oracle: the point-wise definition  log delta_p(x) +- f(x):  value at the point ld +- f(p), -inf off the point,
+    mass over the Delta's variables exp(+-f(p)), Integrate against h gives exp(ld +- f(p)) h(p)."""
+    rng = ctx.rng
+    kind = rng.choice(["int", "int", "real", "vec"])
+    two = rng.random() < 0.3
+    has_b = rng.random() < 0.6
+    nb_ = rng.choice([2, 3])
+    n = rng.choice([2, 3, 4])
+    form = rng.choice(["tensor", "tensor", "tensor", "lazy"])
+    ldv = 0.0 if rng.random() < 0.65 else rng.choice([-1.0, 0.5, 1.0])
+    fk = rng.choice({"int": ["number", "table", "table", "table", "other"],
+                     "real": ["number", "expr", "expr", "gauss", "gauss", "other"],
+                     "vec": ["number", "expr", "expr", "gauss", "gauss", "other"]}[kind])
+    opn = rng.choice(["add", "sub", "sub"])
+    order_ = rng.choice(["d,f", "d,f", "f,d"])
+    seed = rng.randrange(2 ** 31)
+    c = dict(kind=kind, two=two, has_b=has_b, nb=nb_, n=n, form=form, ld=ldv, f=fk, op=opn, order=order_, seed=seed)
+    ctx.count(f"delta-arith:{kind}:{fk}:{opn}:{order_}:{form}:{'unit' if ldv == 0 else 'ld!=0'}")
+    res = run_delta_arith(c)
+    if res is None:
+        ctx.count("delta-arith:declined")
+        return
+    problems, counts = res
+    for k_ in counts:
+        ctx.count("delta-arith:" + k_)
+    if problems:
+        name, prob, exp_, got_ = problems[0]
+        w = dict(c)
+        w["problem"] = prob
+        ctx.fail("input", name, witness=w, expected=exp_, got=got_, python=ARITH_PY.format(verif=str(_VERIF()), case=c))
+        return
+    ctx.case(sample=c, nontrivial_key=("delta-arith", str(c)))
+
+
+def _VERIF():
+    from ..common import VERIF
+    return VERIF
+
+
+ARITH_PY = """
+# replay for C14: arithmetic on a point mass, Delta (+|-) f, against the point-wise definition
+# (re-runs fv/harness/c14.py run_delta_arith on the recorded case: dense numpy oracle)
+import sys
+sys.path.insert(0, {verif!r})
+from fv.harness.c14 import run_delta_arith
+res = run_delta_arith({case!r})
+for p in (res[0] if res else []):
+    print(p)
+FAILS = bool(res and res[0])
+"""
+
+
+def run_delta_arith(c):
+    """Returns (problems, counts) or None when the construction itself declined."""
+    rs = np.random.RandomState(c["seed"])
+    kind, n, nb_ = c["kind"], c["n"], c["nb"]
+    binp = OrderedDict(b=Bint[nb_]) if c["has_b"] else OrderedDict()
+    bshape = (nb_,) if c["has_b"] else ()
+    dom = n if kind == "int" else "real"
+    ev = (2,) if kind == "vec" else ()
+    if kind == "int":
+        pdata = rs.randint(0, n, size=bshape)
+    else:
+        pdata = rs.choice([-1.0, -0.5, 0.0, 0.5, 1.0, 2.0], size=bshape + ev)
+    full = Tensor(pdata, binp, dom)
+    xdom = Bint[n] if kind == "int" else (Reals[ev] if ev else Real)
+    point = Variable("yy", xdom) if c["form"] == "lazy" else full
+    ld = float(c["ld"])
+    problems, counts = [], []
+    sgn = 1.0 if c["op"] == "add" else -1.0
+    try:
+        with np.errstate(all="ignore"):
+            d = Delta("x", point, Number(ld))
+            L = ld
+            if c["two"]:
+                p2 = rs.randint(0, 3, size=bshape)
+                ld2 = 0.25 if ld != 0.0 else 0.0      # non-unit log-densities only in the counted (not gated) cases
+                d = d + Delta("z", Tensor(p2, binp, 3), Number(ld2))
+                L += ld2
+            xv = Variable("x", xdom)
+            coef = rs.choice([-1.0, 0.5, 1.0, 2.0], size=bshape + ev)
+            fk = c["f"]
+            if fk == "number":
+                f, fpy = Number(1.5), (lambda b, u, p: 1.5)
+            elif fk == "table":
+                tab = np.round(rs.standard_normal(bshape + (n,)) * 2) / 2
+                f = Tensor(tab, OrderedDict(list(binp.items()) + [("x", Bint[n])]))
+                fpy = lambda b, u, p: float(tab[b + (int(p),)])
+            elif fk == "expr":
+                cT = Tensor(coef, binp)
+                f = ((xv * cT).sum() + (xv * xv).sum() + 0.5) if ev else (xv * cT + xv * xv + 0.5)
+                fpy = lambda b, u, p: float((coef[b] * p).sum() + (p * p).sum() + 0.5)
+            elif fk == "gauss":
+                dim = 2 if ev else 1
+                P = rs.standard_normal(bshape + (dim, dim)) + 2.0 * np.eye(dim)
+                wv = rs.standard_normal(bshape + (dim,))
+                f = Gaussian(wv, P, OrderedDict(list(binp.items()) + [("x", xdom)]))
+                fpy = lambda b, u, p: -0.5 * float(((np.reshape(p, (dim,)) @ P[b] - wv[b]) ** 2).sum())
+            else:
+                tu = np.round(rs.standard_normal(bshape + (2,)) * 2) / 2
+                f = Tensor(tu, OrderedDict(list(binp.items()) + [("u", Bint[2])]))
+                fpy = lambda b, u, p: float(tu[b + (u,)])
+            if kind == "int":
+                hd = rs.choice([-1.0, 0.5, 1.0, 2.0, 3.0], size=(n,))
+                h, hpy = Tensor(hd, OrderedDict(x=Bint[n])), (lambda p: float(hd[int(p)]))
+            else:
+                h = (xv * 2.0).sum() + 1.0 if ev else xv * 2.0 + 1.0
+                hpy = lambda p: float(np.sum(p) * 2.0 + 1.0)
+            op = ops.add if c["op"] == "add" else ops.sub
+            e = op(d, f) if c["order"] == "d,f" else op(f, d)
+    except DECLINE as ex:
+        return None
+    order = [("b", nb_)] * bool(c["has_b"]) + ([("u", 2)] if c["f"] == "other" else [])
+    names = ["x"] + (["z"] if c["two"] else [])
+
+    def bind(r):
+        return r(yy=full) if c["form"] == "lazy" and "yy" in r.inputs else r
+
+    def observe(label, build, oracle, kind_="lin"):
+        try:
+            with np.errstate(all="ignore"):
+                t = table(bind(build()), order)
+        except DECLINE + (KeyError,) as ex:
+            counts.append(f"{label}-declined:{type(ex).__name__}")
+            return
+        if t is None:
+            counts.append(f"{label}-lazy")
+            return
+        want = np.empty([k for _, k in order])
+        for idx in itertools.product(*[range(k) for _, k in order]):
+            env = dict(zip([n_ for n_, _ in order], idx))
+            b = (env["b"],) if c["has_b"] else ()
+            want[idx] = oracle(b, env.get("u", 0), pdata[b] if bshape else pdata)
+        with np.errstate(all="ignore"):
+            ok = np.array_equal(np.isinf(t), np.isinf(want)) and np.allclose(
+                np.where(np.isinf(t), 0, t), np.where(np.isinf(want), 0, want), rtol=1e-8, atol=1e-9) and (
+                np.sign(np.where(np.isinf(t), t, 0)) == np.sign(np.where(np.isinf(want), want, 0))).all()
+        if ok:
+            counts.append(f"{label}-ok")
+        elif label in GATED_UNIT_ONLY and ld != 0.0:
+            counts.append(f"{label}:ld!=0-differs")
+        else:
+            problems.append((f"C14.delta-arith-{label}",
+                             f"{'Delta' if c['order'] == 'd,f' else 'f'} {c['op']} {'f' if c['order'] == 'd,f' else 'Delta'}"
+                             f" (f = {c['f']}): {label}", str(want.tolist()), str(t.tolist())))
+    z_at = {"z": Tensor(p2, binp, 3)} if c["two"] else {}
+    if kind == "int":
+        off_val = Tensor((pdata + 1) % n, binp, n)
+    else:
+        off_val = Tensor(pdata + 0.25, binp, dom)
+    dfirst = c["order"] == "d,f"
+    if dfirst or c["op"] == "add":
+        observe("at-point", lambda: e(x=full, **z_at), lambda b, u, p: L + sgn * fpy(b, u, p))
+        if n >= 2 or kind != "int":
+            observe("off-point", lambda: e(x=off_val, **z_at), lambda b, u, p: -np.inf)
+        observe("mass", lambda: e.reduce(ops.logaddexp, frozenset(names)), lambda b, u, p: sgn * fpy(b, u, p))
+        observe("integrate-1", lambda: Integrate(e, Number(1.0), frozenset(names)),
+                lambda b, u, p: math.exp(L + sgn * fpy(b, u, p)))
+        observe("integrate-h", lambda: Integrate(e, h, frozenset(names)),
+                lambda b, u, p: math.exp(L + sgn * fpy(b, u, p)) * hpy(p))
+    else:   # f - Delta
+        observe("at-point", lambda: e(x=full, **z_at), lambda b, u, p: fpy(b, u, p) - L)
+        observe("off-point", lambda: e(x=off_val, **z_at), lambda b, u, p: np.inf)
+    return problems, counts
+
+
+GATED_UNIT_ONLY = ("mass", "integrate-1", "integrate-h")
+
+
 def delta_streams(ctx, use_driver=True):
     rng = ctx.rng
     n = 200 if ctx.tier == "quick" else 4000
@@ -1702,6 +1873,8 @@ def delta_streams(ctx, use_driver=True):
         delta_multi_case(ctx, use_driver=use_driver)
     for _ in range(60 if ctx.tier == "quick" else 1000):
         delta_joint_case(ctx)
+    for _ in range(160 if ctx.tier == "quick" else 3000):
+        delta_arith_case(ctx)
 
 
 # --------------------------------------------------------------------------------------
@@ -2778,7 +2951,11 @@ def correspond(ctx):
         "the points.  Joint integrals: Integrate(sample, f, sampled + X) for subsets X of the particle / batch inputs "
         "(empty included) with integrands that depend on the sampled variable AND on the batch inputs (Tensor tables; "
         "x * Tensor(i) for Gaussians), one call vs two steps vs brute force sum_X mass(slice) f(slice, point(slice)), on "
-        "Tensor / Gaussian / mixture samples and hand-built Delta + weight-table measures.  Non-trivial = a row with >= 2 positive cells (sample), domain size >= 2 "
+        "Tensor / Gaussian / mixture samples and hand-built Delta + weight-table measures.  Delta arithmetic: Delta (1-2 "
+        "names; discrete / real / vector; batched, plain or free-variable points; log-density 0 or not) combined by add AND "
+        "sub, both operand orders, with a Number, a table over the variable, a lazy expression of x, a Gaussian in x, or a "
+        "Tensor not mentioning x; value at / off the point, mass, Integrate against 1 and an integrand vs the point-wise "
+        "definition.  Non-trivial = a row with >= 2 positive cells (sample), domain size >= 2 "
         "(Delta), >= 2 sampled dimensions or a conditioning block (Gaussian); distinct by full case content.")
     radix_box(ctx)
     sample_streams(ctx)
@@ -2829,6 +3006,7 @@ def search(ctx, broken):
         delta_reduce_case(ctx, use_driver=False)
         delta_multi_case(ctx, use_driver=False)
         delta_joint_case(ctx)
+        delta_arith_case(ctx)
         if found():
             return
     for _ in range(600):
